@@ -195,6 +195,9 @@ pub fn guarded<T>(f: impl FnOnce() -> T) -> Result<T, String> {
 }
 
 /// Accumulates the result of one sweep (one named section of a check).
+/// Largest number of distinct output digests remembered per section (reported as "saturated" when reached).
+pub const DIGEST_CAP: usize = 40_000_000;
+
 pub struct Section {
     pub name: String,
     pub rule: String,
@@ -261,7 +264,12 @@ impl Section {
         self.transitions.fetch_add(out.transitions.max(1), Ordering::Relaxed);
         if out.digest != 0 {
             // thread-local batching would be faster; the set is small relative to evaluation cost
-            self.digests.lock().unwrap().insert(out.digest);
+            // the set of distinct output digests is a coverage statistic, not an oracle: it stops growing at DIGEST_CAP
+            // entries per section (about 1 GiB) so that a thorough tier of billions of states cannot exhaust memory
+            let mut d = self.digests.lock().unwrap();
+            if d.len() < DIGEST_CAP {
+                d.insert(out.digest);
+            }
         }
         if let Some(e) = out.unexpected_err {
             self.unexpected_err.fetch_add(1, Ordering::Relaxed);
